@@ -201,12 +201,10 @@ pub fn run(ctx: &mut Ctx) {
     let n2 = cases2.len();
     ctx.run_par(&SUB_TOR2, cases2, Some(&format!("all {} euclidean 2D symbols (degrees >= 3) with <= {} chambers, one per isomorphism class, each with a fixed renumbering / dual variant", n2, t.pick(8, 9))));
 
-    let maxn = t.pick(3, 4);
+    let (pool, pool_text) = symbol_pool(t.pick(3, 4), t.pick(4, 5), t.pick(10, 10));
     let mut cases3: Vec<TorCase> = vec![];
-    for n in 1..=maxn {
-        for (k, s) in symbols_of_size(n, &CRYSTALLOGRAPHIC).into_iter().enumerate() {
-            cases3.push(TorCase { swaps: fixed_swaps(s.size, k), dual: k % 2 == 1, ds: s, known: String::new() });
-        }
+    for (k, s) in pool.into_iter().enumerate() {
+        cases3.push(TorCase { swaps: fixed_swaps(s.size, k), dual: k % 2 == 1, ds: s, known: String::new() });
     }
     for (k, s) in corpus_lit().into_iter().enumerate() {
         cases3.push(TorCase { swaps: fixed_swaps(s.size, k), dual: k % 2 == 1, ds: s, known: "literature corpus".into() });
@@ -215,7 +213,7 @@ pub fn run(ctx: &mut Ctx) {
         cases3.push(TorCase { swaps: fixed_swaps(s.size, k), dual: k % 2 == 1, ds: s, known: why });
     }
     let n3 = cases3.len();
-    ctx.run_par(&SUB_PTC, cases3.clone(), Some(&format!("{} cases: all 3D symbols with spherical tiles and vertex figures, branching in {{1,2,3,4,6}}, <= {} chambers; the 20 literature symbols; all products of euclidean 2D symbols with <= {} chambers with the 4 line tilings", n3, maxn, t.pick(4, 6))));
+    ctx.run_par(&SUB_PTC, cases3.clone(), Some(&format!("{} cases: 3D symbols with spherical tiles and vertex figures and branching in {{1,2,3,4,6}}: {}; the 20 literature symbols; all products of euclidean 2D symbols with <= {} chambers with the 4 line tilings", n3, pool_text, t.pick(4, 6))));
 
     ctx.layer("random");
     let pool2 = Arc::new(eu);
